@@ -292,8 +292,12 @@ func RunEnumWorker(p Params) *Summary {
 			flush()
 		}
 	}
+	// (e) every three-call history over the fixed pool of call descriptors
+	nTriples := len(histPool())
+	runHistTriples(p, "C04", mine, exec, func() int { return item })
 	if complete {
 		ws.sum.Exhaustive = []string{
+			fmt.Sprintf("every ordered triple of %d call descriptors as a three-call history x {v5, legacy}", nTriples),
 			fmt.Sprintf("torn input: every proper prefix of %d seeded (document, patch, merge patch) triples x every entry point x {v5, legacy}", K),
 			"single-byte substitution from {}[],:\"\\0-n NUL 0xFF at every offset of the same texts x every entry point x {v5, legacy}",
 			fmt.Sprintf("every ordered pair of %d small values x two-argument functions and DecodePatch/Apply x {v5, legacy}", len(smallValues)),
